@@ -466,6 +466,88 @@ theorem C16_order_encode (eq : Pt α → Pt α → Bool) (e : EncS) (recs : List
   have := writeAllS_rows eq e S recs ([], []) h
   simpa [writeAllS] using this
 
+/-- what record `r` must come back as when it is the `i`-th record read with schedule `calls`
+(all calls field-based): its own geometry and the requested values taken from ITS OWN cells -/
+def expRow (keys : List Bytes) (calls : List Call) (G : Shape α → Geom α) (i : Nat) (r : Shape α × List Bytes) :
+    List (RVal α) :=
+  match calls[i % calls.length]? with
+  | some (.f ns) => (match rowFields (α := α) keys r.2 ns with
+    | .ok (vs, _) => .geom (G r.1) :: vs
+    | .error _ => [])
+  | _ => []
+
+def expRows (keys : List Bytes) (calls : List Call) (G : Shape α → Geom α) :
+    List (Shape α × List Bytes) → Nat → List (List (RVal α))
+  | [], _ => []
+  | r :: rest, i => expRow keys calls G i r :: expRows keys calls G rest (i + 1)
+
+theorem expRows_length (keys : List Bytes) (calls : List Call) (G : Shape α → Geom α) :
+    ∀ (rows : List (Shape α × List Bytes)) (i : Nat), (expRows keys calls G rows i).length = rows.length
+  | [], _ => rfl
+  | _ :: rest, i => by simp [expRows, expRows_length keys calls G rest (i + 1)]
+
+theorem readM_go_fields (zero : α) (f : FileM α) (calls : List Call) (G : Shape α → Geom α)
+    (hne : calls ≠ [])
+    (hcalls : ∀ c ∈ calls, ∃ ns, c = Call.f ns ∧
+      ∀ r ∈ f.rows, ∃ vs : List (RVal α), rowFields (fileKeys f.fields) r.2 ns = .ok (vs, false))
+    (hg : ∀ r ∈ f.rows, shp2Geom r.1 = .ok (G r.1)) :
+    ∀ (rest : List (Shape α × List Bytes)) (k i : Nat), f.rows.drop k = rest →
+      readM.go zero f calls (fileKeys f.fields) rest k i
+        = ⟨expRows (fileKeys f.fields) calls G rest i, false, false⟩ := by
+  intro rest
+  induction rest with
+  | nil => intro k i _; simp [readM.go, expRows]
+  | cons r rest ih =>
+    intro k i hdrop
+    have hlen : 0 < calls.length := List.length_pos_iff.mpr hne
+    have hi : i % calls.length < calls.length := Nat.mod_lt _ hlen
+    have hk : k < f.rows.length := by
+      rcases Nat.lt_or_ge k f.rows.length with h | h
+      · exact h
+      · rw [List.drop_eq_nil_of_le h] at hdrop; cases hdrop
+    have hrk : f.rows[k] = r := by
+      have := List.getElem_cons_drop (h := hk)
+      rw [hdrop] at this
+      exact (List.cons.inj this).1
+    have hmem : r ∈ f.rows := hrk ▸ List.getElem_mem hk
+    obtain ⟨ns, hc, hns⟩ := hcalls _ (List.getElem_mem hi)
+    obtain ⟨vs, hvs⟩ := hns r hmem
+    have hrest : f.rows.drop (k + 1) = rest := by
+      have := List.getElem_cons_drop (h := hk)
+      rw [hdrop] at this
+      exact (List.cons.inj this).2
+    obtain ⟨sh, cells⟩ := r
+    have hgr := hg _ hmem
+    simp only at hgr hvs
+    rw [readM.go]
+    simp only [List.getElem?_eq_getElem hi, hc, hgr, List.getElem?_eq_getElem hk, hrk, hvs,
+      ih (k + 1) (i + 1) hrest, expRows, expRow]
+
+/-- **C16_order_any_fields** (clause "come back in the same order and number", any reading schedule):
+on ONE decoder, `n` reads whose requested field lists vary arbitrarily per row (all names, a subset, a
+permutation, duplicates, none at all) return records `0..n-1` in file order, without panic or error,
+and the values returned with record `i` are taken from record `i`'s own cells (`expRow`) — the decoder's
+row cursor advances exactly once per decoded record whatever was requested. -/
+theorem C16_order_any_fields (zero : α) (f : FileM α) (calls : List Call) (G : Shape α → Geom α)
+    (hne : calls ≠ [])
+    (hcalls : ∀ c ∈ calls, ∃ ns, c = Call.f ns ∧
+      ∀ r ∈ f.rows, ∃ vs : List (RVal α), rowFields (fileKeys f.fields) r.2 ns = .ok (vs, false))
+    (hg : ∀ r ∈ f.rows, shp2Geom r.1 = .ok (G r.1)) :
+    readM zero f calls = ⟨expRows (fileKeys f.fields) calls G f.rows 0, false, false⟩ ∧
+    (readM zero f calls).rows.length = f.rows.length := by
+  have := readM_go_fields zero f calls G hne hcalls hg f.rows 0 0 (by simp)
+  refine ⟨by simpa [readM] using this, ?_⟩
+  simp only [readM, this, expRows_length]
+
+/-- non-vacuity: a geometry-only read followed by a read with a field returns record 1's value with
+record 1 (the seeded change C16-a3 returned record 0's) -/
+example :
+    let f : FileM Nat := ⟨1, [⟨name11 [105], 78, 10, 0⟩],
+      [(.point ⟨0, 0⟩, [cellOf 10 (fmtInt 100)]), (.point ⟨1, 0⟩, [cellOf 10 (fmtInt 101)])]⟩
+    (readM 0 f [.f [], .f [[105]]]).rows.map (fun row => row.filterMap fun v => match v with | .str b => some b | _ => none)
+      = [[], [fmtInt 101]] := by
+  decide +kernel
+
 end order
 
 end GeomV.C16
